@@ -16,11 +16,13 @@ def run(chk):
     # R2: an interleaved multi-scene run against the single-scene runs, related by TLC up to an id bijection
     from checks import r2_common as r2
     traces = []
-    for i in range(2 if chk.tier == "quick" else 40):
+    for i in range(3 if chk.tier == "quick" else 40):
         kind = ("sort", "visual", "batchsort", "batchvisual")[i % 4]
         seed = chk.seed * 1000 + 300 + i
-        kw = dict(steps=200, shards=2, metric="iou" if i % 2 == 0 else "maha", max_idle=2, objects=3, spread=90, scenes="0,7",
-                  crafted=False, extra=["--no-lifecycle", "1"])
+        # short idle limits and a short collection period: the collection counter is shared by all scenes, so the
+        # interleaved run collects expired tracks at other moments than the single-scene run
+        kw = dict(steps=200, shards=2, metric="iou" if i % 2 == 0 else "maha", max_idle=(0, 1, 2)[i % 3], objects=3, spread=90, scenes="0,7",
+                  crafted=False, extra=["--no-lifecycle", "1"] + (["--aw", str((3, 7)[i % 2])] if i % 4 != 3 else []))
         a = r2.record(chk, f"c04-all-{i}", kind, seed, **kw)
         traces.append(a)
         for sc in (0, 7):
